@@ -253,14 +253,25 @@ func (st *ServerStream) readerAdd(
 	case ProtocolUDP:
 		// check whether UDP ports and IP are already assigned to another reader
 		for r := range st.readers {
-			if r.setuppedTransport.Protocol == ProtocolUDP &&
-				r.author.ip().Equal(ss.author.ip()) &&
-				r.author.zone() == ss.author.zone() {
-				for _, rt := range r.setuppedMedias {
-					if rt.udpRTPReadPort == clientPorts[0] {
-						return liberrors.ErrServerUDPPortsAlreadyInUse{Port: rt.udpRTPReadPort}
+			// setuppedMedias of another session is written by that session's routine
+			// (further SETUP requests), under its propsMutex.
+			err := func() error {
+				r.propsMutex.RLock()
+				defer r.propsMutex.RUnlock()
+
+				if r.setuppedTransport.Protocol == ProtocolUDP &&
+					r.author.ip().Equal(ss.author.ip()) &&
+					r.author.zone() == ss.author.zone() {
+					for _, rt := range r.setuppedMedias {
+						if rt.udpRTPReadPort == clientPorts[0] {
+							return liberrors.ErrServerUDPPortsAlreadyInUse{Port: rt.udpRTPReadPort}
+						}
 					}
 				}
+				return nil
+			}()
+			if err != nil {
+				return err
 			}
 		}
 
